@@ -2,5 +2,842 @@ import EoVerif.Model.GenCompile
 import EoVerif.Spec.WellFormed
 /-! Helper lemmas for C17. -/
 namespace EoVerif.Gen
+open EoVerif.Spec
+
+/-! ### Association lists -/
+
+theorem find_fst_append_single {β} (L : List (String × β)) (n m : String) (b : β) :
+    ((L ++ [(n, b)]).find? (·.1 == m)).map (·.2)
+      = ((L.find? (·.1 == m)).map (·.2)).or (if n == m then some b else none) := by
+  induction L with
+  | nil => by_cases h : (n == m) = true <;> simp [List.find?, h]
+  | cons x xs ih =>
+    by_cases hx : (x.1 == m) = true
+    · simp [List.find?, hx]
+    · simp only [List.cons_append, List.find?, hx]
+      exact ih
+
+theorem find_fst_map_upd {β} (L : List (String × β)) (l m : String) (b : β) :
+    ((L.map (fun p => if p.1 == l then (p.1, b) else p)).find? (·.1 == m)).map (·.2)
+      = ((L.find? (·.1 == m)).map (·.2)).map (fun x => if m == l then b else x) := by
+  induction L with
+  | nil => rfl
+  | cons x xs ih =>
+    obtain ⟨a, v⟩ := x
+    rw [List.map_cons, List.find?_cons, List.find?_cons]
+    cases hl : (a == l) <;> cases hx : (a == m)
+    · simpa [hl, hx] using ih
+    · have hxm : a = m := by simpa using hx
+      subst hxm
+      simp [hl]
+    · simpa [hl, hx] using ih
+    · have hxm : a = m := by simpa using hx
+      subst hxm
+      simp [hl]
+
+theorem any_fst_eq_isSome {β} (L : List (String × β)) (n : String) :
+    L.any (·.1 == n) = ((L.find? (·.1 == n)).map (·.2)).isSome := by
+  induction L with
+  | nil => simp
+  | cons x xs ih =>
+    by_cases hx : (x.1 == n) = true
+    · simp [List.find?, hx]
+    · simp only [List.any_cons, hx, List.find?]
+      simpa using ih
+
+
+
+theorem except_bind_ok {α β} {x : Except GenErr α} {f : α → Except GenErr β} {r : β}
+    (h : (x >>= f) = .ok r) : ∃ a, x = .ok a ∧ f a = .ok r := by
+  cases x with
+  | error m => cases h
+  | ok a => exact ⟨a, rfl, h⟩
+
+theorem except_bind_ok' {α β} {x : Except GenErr α} {f : α → Except GenErr β} {r : β}
+    (h : (x >>= f) = .ok r) : match x with | .ok a => f a = .ok r | .error _ => False := by
+  cases x with
+  | error m => cases h
+  | ok a => exact h
+
+/-- peel one guard stage of a `do` block: every successful path ends in the hypothesis itself -/
+local syntax "wf_stage " ident : tactic
+local macro_rules
+  | `(tactic| wf_stage $h) =>
+    `(tactic| first
+      | exact $h:ident
+      | cases $h:ident
+      | (split at $h:ident <;> wf_stage $h)
+      | (replace $h:ident := except_bind_ok' $h:ident; wf_stage $h))
+
+/-- what a successful `validateField` guarantees (the context-sensitive part) -/
+theorem validateField_ok {tf : TypeEnv} {ctx : Ctx} {p : FP} (h : validateField tf ctx p = .ok ()) :
+    (p.name = none → p.hardcoded.isSome = true ∧ p.optional = false) ∧
+    (∀ n, p.name = some n → (ctx.field? n).isSome = false) ∧
+    (∀ l, p.lenStr = some l →
+      (!PyStr.isdigit l && (ctx.lenRef? l).isNone) = false ∧ (ctx.lenRef? l).getD false = false) := by
+  unfold validateField at h
+  extract_lets j11 j10 j9 j8 j7 j6 j5 j4 j3 j2 j1 j0 at h
+  have h0 : j0 () = .ok () := by wf_stage h
+  have h1 : j1 () = .ok () := by simp only [j0] at h0; wf_stage h0
+  have h4 : j4 () = .ok () := by simp only [j1, j2, j3] at h1; wf_stage h1
+  have h7 : j7 () = .ok () := by simp only [j4, j5, j6] at h4; wf_stage h4
+  have h9 : j9 () = .ok () := by simp only [j7, j8] at h7; wf_stage h7
+  have h10 : j10 () = .ok () := by
+    simp only [j9] at h9
+    split at h9
+    · exact h9
+    · obtain ⟨t, _, h9⟩ := except_bind_ok h9
+      wf_stage h9
+  have h11 : j11 () = .ok () := by simp only [j10] at h10; wf_stage h10
+  refine ⟨?_, ?_, ?_⟩
+  · intro hn
+    simp only [j7, j8, hn, Option.isNone_none, if_true] at h7
+    split at h7
+    · cases h7
+    · split at h7
+      · cases h7
+      · rename_i h1 h2
+        simp at h1 h2
+        simp [h2, Option.isSome_iff_ne_none, h1]
+  · intro n hn
+    simp only [j10, hn] at h10
+    split at h10
+    · cases h10
+    · rename_i h1; simpa using h1
+  · intro l hl
+    simp only [j11, hl] at h11
+    split at h11
+    · cases h11
+    · rename_i h1
+      split at h11
+      · cases h11
+      · rename_i h2; simp only [Bool.not_eq_true] at h1 h2; exact ⟨h1, h2⟩
+
+/-! ### `Ctx` updates -/
+
+theorem setField_fresh {ctx : Ctx} {fd : FieldData} (h : (ctx.field? fd.name).isSome = false) :
+    ctx.setField fd = { ctx with accessible := ctx.accessible ++ [(fd.name, fd)] } := by
+  unfold Ctx.setField
+  rw [any_fst_eq_isSome]
+  unfold Ctx.field? at h
+  rw [h]; rfl
+
+theorem setLenRef_fresh {ctx : Ctx} {n : String} {b : Bool} (h : ctx.lenRef? n = none) :
+    ctx.setLenRef n b = { ctx with lenRef := ctx.lenRef ++ [(n, b)] } := by
+  unfold Ctx.setLenRef
+  rw [any_fst_eq_isSome]
+  unfold Ctx.lenRef? at h
+  rw [h]; rfl
+
+theorem setLenRef_present {ctx : Ctx} {n : String} {b : Bool} (h : (ctx.lenRef? n).isSome = true) :
+    ctx.setLenRef n b
+      = { ctx with lenRef := ctx.lenRef.map (fun p => if p.1 == n then (p.1, b) else p) } := by
+  unfold Ctx.setLenRef
+  rw [any_fst_eq_isSome]
+  unfold Ctx.lenRef? at h
+  rw [h]; rfl
+
+/-- the context `generateField` leaves behind for a named field -/
+def fieldCtx (ctx : Ctx) (p : FP) (n : String) (t : Ty) : Ctx :=
+  let c1 := ctx.setField ⟨n, t, p.offset, p.arrayField⟩
+  if p.lengthField then c1.setLenRef n false
+  else match p.lenStr with
+    | some l => if (c1.lenRef? l).isSome then c1.setLenRef l true else c1
+    | none => c1
+
+theorem generateField_none {tf : TypeEnv} {ctx ctx' : Ctx} {d d' : Data} {p : FP} (hn : p.name = none)
+    (h : generateField tf ctx d p = .ok (ctx', d')) : ctx' = ctx := by
+  unfold generateField at h
+  simp only [hn, pure, Except.pure, Except.ok.injEq, Prod.mk.injEq] at h
+  exact h.1.symm
+
+theorem generateField_some {tf : TypeEnv} {ctx ctx' : Ctx} {d d' : Data} {p : FP} {n : String}
+    (hn : p.name = some n) (h : generateField tf ctx d p = .ok (ctx', d')) :
+    ∃ t, ctx' = fieldCtx ctx p n t := by
+  unfold generateField at h
+  simp only [hn] at h
+  obtain ⟨t, _, h⟩ := except_bind_ok h
+  refine ⟨t, ?_⟩
+  simp only [fieldCtx]
+  split at h
+  · simp only [pure, Except.pure, Except.ok.injEq, Prod.mk.injEq] at h
+    rw [if_pos ‹_›]; exact h.1.symm
+  · rw [if_neg ‹_›]
+    split at h
+    next l hl =>
+      simp only [hl]
+      split at h
+      · split at h
+        · simp only [pure, Except.pure, Except.ok.injEq, Prod.mk.injEq] at h
+          rw [if_pos ‹_›]; exact h.1.symm
+        · cases h
+      · simp only [pure, Except.pure, Except.ok.injEq, Prod.mk.injEq] at h
+        rw [if_neg ‹_›]; exact h.1.symm
+    next hl =>
+      simp only [hl]
+      simp only [pure, Except.pure, Except.ok.injEq, Prod.mk.injEq] at h
+      exact h.1.symm
+
+theorem generateAll_ok {tf : TypeEnv} {ctx ctx' : Ctx} {d d' : Data} {p : FP}
+    (h : generateAll tf ctx d p = .ok (ctx', d')) :
+    validateField tf ctx p = .ok () ∧ ∃ d1, generateField tf ctx d p = .ok (ctx', d1) := by
+  unfold generateAll at h
+  obtain ⟨u, hv, h⟩ := except_bind_ok h
+  obtain ⟨⟨c1, d1⟩, hg, h⟩ := except_bind_ok h
+  obtain ⟨d2, _, h⟩ := except_bind_ok h
+  obtain ⟨d3, _, h⟩ := except_bind_ok h
+  simp only [pure, Except.pure, Except.ok.injEq, Prod.mk.injEq] at h
+  refine ⟨hv, d1, ?_⟩
+  rw [hg, ← h.1]
+
+/-! ### Agreement of the two contexts -/
+
+/-- the generator's context and the declarative context of the same position agree
+    (same body as `Agree` in `Props/C17.lean`) -/
+def AgreeW (ctx : Ctx) (w : WCtx) : Prop :=
+  ctx.chunked = w.chunked ∧ ctx.reachedOptional = w.afterOptional ∧ ctx.reachedDummy = w.afterDummy ∧
+  (∀ n, (ctx.field? n).isSome = w.names.contains n) ∧
+  (∀ n, ctx.lenRef? n = w.lenState n) ∧
+  (∀ n, (w.lenState n).isSome = true → w.names.contains n = true)
+
+theorem lenState_markRef (w : WCtx) (l m : String) :
+    (w.markRef l).lenState m = (w.lenState m).map (fun x => if m == l then true else x) :=
+  find_fst_map_upd w.lens l m true
+
+theorem fieldCtx_spec {ctx : Ctx} {p : FP} {n : String} {t : Ty}
+    (hfresh : (ctx.field? n).isSome = false) (hlf : p.lengthField = true → ctx.lenRef? n = none) :
+    (fieldCtx ctx p n t).chunked = ctx.chunked ∧
+    (fieldCtx ctx p n t).reachedOptional = ctx.reachedOptional ∧
+    (fieldCtx ctx p n t).reachedDummy = ctx.reachedDummy ∧
+    (∀ m, ((fieldCtx ctx p n t).field? m).isSome = ((ctx.field? m).isSome || n == m)) ∧
+    (∀ m, (fieldCtx ctx p n t).lenRef? m =
+      if p.lengthField then (ctx.lenRef? m).or (if n == m then some false else none)
+      else match p.lenStr with
+        | some l =>
+          if (ctx.lenRef? l).isSome then (ctx.lenRef? m).map (fun x => if m == l then true else x)
+          else ctx.lenRef? m
+        | none => ctx.lenRef? m) := by
+  have hsf := setField_fresh (ctx := ctx) (fd := ⟨n, t, p.offset, p.arrayField⟩) hfresh
+  have hfield : ∀ (c : Ctx), c.accessible = ctx.accessible ++ [(n, ⟨n, t, p.offset, p.arrayField⟩)] →
+      ∀ m, (c.field? m).isSome = ((ctx.field? m).isSome || n == m) := by
+    intro c hc m
+    unfold Ctx.field?
+    rw [hc, find_fst_append_single]
+    cases (Option.map (fun x => x.snd) (List.find? (fun x => x.fst == m) ctx.accessible)) <;>
+      cases (n == m) <;> rfl
+  obtain ⟨c1, hc1, hc⟩ : ∃ c1, ctx.setField ⟨n, t, p.offset, p.arrayField⟩ = c1 ∧
+      c1 = { ctx with accessible := ctx.accessible ++ [(n, ⟨n, t, p.offset, p.arrayField⟩)] } :=
+    ⟨_, rfl, hsf⟩
+  have e1 : ∀ m, c1.lenRef? m = ctx.lenRef? m := by subst hc; intro m; rfl
+  unfold fieldCtx
+  simp only [hc1]
+  split
+  next hl =>
+    rw [setLenRef_fresh (ctx := c1) (by rw [e1]; exact hlf hl)]
+    subst hc
+    refine ⟨rfl, rfl, rfl, hfield _ rfl, fun m => ?_⟩
+    exact find_fst_append_single ctx.lenRef n m false
+  next hl =>
+    split
+    next l hls =>
+      rw [e1]
+      split
+      next hsome =>
+        rw [setLenRef_present (ctx := c1) (by rw [e1]; exact hsome)]
+        subst hc
+        refine ⟨rfl, rfl, rfl, hfield _ rfl, fun m => ?_⟩
+        exact find_fst_map_upd ctx.lenRef l m true
+      next hnone =>
+        subst hc
+        exact ⟨rfl, rfl, rfl, hfield _ rfl, fun m => rfl⟩
+    next hls =>
+      subst hc
+      exact ⟨rfl, rfl, rfl, hfield _ rfl, fun m => rfl⟩
+
+
+theorem flagAttr_eq_battr (e : Xml) (n : String) : flagAttr e n = battr e n := rfl
+
+theorem contains_append_single (L : List String) (n m : String) :
+    (L ++ [n]).contains m = (L.contains m || n == m) := by
+  induction L with
+  | nil =>
+    simp only [List.nil_append, List.contains_cons, List.contains_nil, Bool.or_false, Bool.false_or]
+    exact BEq.comm
+  | cons x xs ih => simp only [List.cons_append, List.contains_cons, ih, Bool.or_assoc]
+
+/-- the common simulation step for `<field>`, `<array>`, `<length>` -/
+theorem named_sim {tf : TypeEnv} {ctx ctx1 : Ctx} {d d1 : Data} {w : WCtx} {e : Xml}
+    {isArray isLength : Bool} {p : FP}
+    (hname : p.name = e.get "name") (hopt : p.optional = battr e "optional")
+    (hlen : p.lenStr = if isLength then none else e.get "length")
+    (hlf : p.lengthField = isLength)
+    (h1 : (ctx.reachedOptional && !p.optional) = false)
+    (h2 : (isArray && battr e "delimited" && !ctx.chunked) = false)
+    (h3 : (isArray || isLength) = true → (e.get "name").isSome = true)
+    (h4 : p.hardcoded.isSome = true → (isArray || isLength) = false → hasText e = true)
+    (hall : generateAll tf ctx d p = .ok (ctx1, d1)) (ha : AgreeW ctx w) :
+    ∃ w', wfNamed w e isArray isLength = some w' ∧
+      AgreeW (if p.optional then { ctx1 with reachedOptional := true } else ctx1) w' ∧
+      w'.chunked = w.chunked := by
+  obtain ⟨hv, d2, hg⟩ := generateAll_ok hall
+  obtain ⟨v1, v2, v3⟩ := validateField_ok hv
+  obtain ⟨a1, a2, a3, a4, a5, a6⟩ := ha
+  unfold wfNamed
+  rw [a2] at h1
+  rw [a1] at h2
+  simp only [← hopt, h1, h2, Bool.false_eq_true, if_false]
+  cases hn : e.get "name" with
+  | none =>
+    rw [hn] at hname
+    obtain ⟨v1a, v1b⟩ := v1 hname
+    have hal : (isArray || isLength) = false := by
+      cases hh : (isArray || isLength)
+      · rfl
+      · have := h3 hh; rw [hn] at this; cases this
+    have hil : isLength = false := by cases isLength <;> simp_all
+    have ht := h4 v1a hal
+    have hc1 := generateField_none hname hg
+    subst hc1
+    simp only [hal, ht, v1b, Bool.false_eq_true, if_false, Bool.not_true]
+    rw [hil] at hlen
+    simp only [Bool.false_eq_true, if_false] at hlen
+    cases hl : e.get "length" with
+    | none => exact ⟨w, rfl, ⟨a1, a2, a3, a4, a5, a6⟩, rfl⟩
+    | some l =>
+      rw [hl] at hlen
+      obtain ⟨v3a, v3b⟩ := v3 l hlen
+      rw [a5] at v3a v3b
+      simp only [v3a, v3b, Bool.false_eq_true, if_false]
+      exact ⟨w, rfl, ⟨a1, a2, a3, a4, a5, a6⟩, rfl⟩
+  | some n =>
+    rw [hn] at hname
+    have hfresh := v2 n hname
+    have hfresh' : w.names.contains n = false := by rw [← a4]; exact hfresh
+    have hlfresh : ctx.lenRef? n = none := by
+      cases hh : ctx.lenRef? n with
+      | none => rfl
+      | some b =>
+        have := a6 n (by rw [← a5, hh]; rfl)
+        rw [hfresh'] at this; cases this
+    obtain ⟨t, hc1⟩ := generateField_some hname hg
+    obtain ⟨s1, s2, s3, s4, s5⟩ := fieldCtx_spec (ctx := ctx) (p := p) (n := n) (t := t) hfresh
+      (fun _ => hlfresh)
+    rw [← hc1] at s1 s2 s3 s4 s5
+    simp only [hfresh', Bool.false_eq_true, if_false]
+    -- the generator context after the optional flag
+    have k1 : (if p.optional then { ctx1 with reachedOptional := true } else ctx1).chunked = ctx.chunked := by
+      split <;> exact s1
+    have k2 : (if p.optional then { ctx1 with reachedOptional := true } else ctx1).reachedOptional
+        = (ctx.reachedOptional || p.optional) := by
+      split
+      next h => simp [h]
+      next h => simp [h, s2]
+    have k3 : (if p.optional then { ctx1 with reachedOptional := true } else ctx1).reachedDummy
+        = ctx.reachedDummy := by
+      split <;> exact s3
+    have k4 : ∀ m, ((if p.optional then { ctx1 with reachedOptional := true } else ctx1).field? m).isSome
+        = ((ctx.field? m).isSome || n == m) := by
+      intro m; split <;> exact s4 m
+    have k5 : ∀ m, (if p.optional then { ctx1 with reachedOptional := true } else ctx1).lenRef? m
+        = ctx1.lenRef? m := by
+      intro m; split <;> rfl
+    generalize (if p.optional then { ctx1 with reachedOptional := true } else ctx1) = cF at k1 k2 k3 k4 k5
+    cases isLength with
+    | true =>
+      simp only [if_true, Option.map_some]
+      simp only [hlf, if_true] at s5
+      refine ⟨_, rfl, ⟨?_, ?_, ?_, ?_, ?_, ?_⟩, rfl⟩
+      · exact k1.trans a1
+      · rw [k2, a2]
+      · exact k3.trans a3
+      · intro m; rw [k4, a4]; exact (contains_append_single _ _ _).symm
+      · intro m; rw [k5, s5, a5]
+        exact (find_fst_append_single w.lens n m false).symm
+      · intro m hm
+        show (w.names ++ [n]).contains m = true
+        rw [contains_append_single]
+        have hm' : (((w.lens ++ [(n, false)]).find? (·.1 == m)).map (·.2)).isSome = true := hm
+        rw [find_fst_append_single] at hm'
+        cases hw : w.lenState m with
+        | some b => rw [a6 m (by rw [hw]; rfl)]; rfl
+        | none =>
+          have hw' : Option.map (fun x => x.snd) (List.find? (fun x => x.fst == m) w.lens) = none := hw
+          rw [hw'] at hm'
+          cases hnm : (n == m)
+          · simp [hnm] at hm'
+          · simp
+    | false =>
+      simp only [Bool.false_eq_true, if_false] at hlen ⊢
+      simp only [hlf, Bool.false_eq_true, if_false] at s5
+      cases hl : e.get "length" with
+      | none =>
+        rw [hl] at hlen
+        simp only [hlen] at s5
+        simp only [Option.map_some]
+        refine ⟨_, rfl, ⟨?_, ?_, ?_, ?_, ?_, ?_⟩, rfl⟩
+        · exact k1.trans a1
+        · rw [k2, a2]
+        · exact k3.trans a3
+        · intro m; rw [k4, a4]; exact (contains_append_single _ _ _).symm
+        · intro m; rw [k5, s5, a5]; rfl
+        · intro m hm
+          show (w.names ++ [n]).contains m = true
+          rw [contains_append_single, a6 m hm]; rfl
+      | some l =>
+        rw [hl] at hlen
+        obtain ⟨v3a, v3b⟩ := v3 l hlen
+        simp only [hlen] at s5
+        rw [a5] at v3a v3b
+        simp only [v3a, v3b, Bool.false_eq_true, if_false, Option.map_some]
+        cases hls : (w.lenState l).isSome with
+        | true =>
+          simp only [if_true]
+          simp only [a5, hls, if_true] at s5
+          refine ⟨_, rfl, ⟨?_, ?_, ?_, ?_, ?_, ?_⟩, rfl⟩
+          · exact k1.trans a1
+          · rw [k2, a2]; rfl
+          · exact k3.trans a3
+          · intro m; rw [k4, a4]; exact (contains_append_single _ _ _).symm
+          · intro m; rw [k5, s5]; exact (lenState_markRef w l m).symm
+          · intro m hm
+            show (w.names ++ [n]).contains m = true
+            have hm' : ((w.markRef l).lenState m).isSome = true := hm
+            rw [lenState_markRef, Option.isSome_map] at hm'
+            rw [contains_append_single, a6 m hm']; rfl
+        | false =>
+          simp only [Bool.false_eq_true, if_false]
+          simp only [a5, hls, Bool.false_eq_true, if_false] at s5
+          refine ⟨_, rfl, ⟨?_, ?_, ?_, ?_, ?_, ?_⟩, rfl⟩
+          · exact k1.trans a1
+          · rw [k2, a2]
+          · exact k3.trans a3
+          · intro m; rw [k4, a4]; exact (contains_append_single _ _ _).symm
+          · intro m; rw [k5, s5]; rfl
+          · intro m hm
+            show (w.names ++ [n]).contains m = true
+            rw [contains_append_single, a6 m hm]; rfl
+
+
+/-! ### The leaf instructions -/
+
+theorem getText_some_hasText {e : Xml} {r : String} (h : e.getText = .ok (some r)) : hasText e = true := by
+  unfold Xml.getText at h
+  extract_lets t tails at h
+  unfold hasText
+  show (!t.isEmpty || !tails.isEmpty) = true
+  cases htl : tails with
+  | cons x xs => simp
+  | nil =>
+    rw [htl] at h
+    simp only [Xml.getText.go] at h
+    split at h
+    · cases h
+    · rename_i hne; simp [hne]
+
+theorem genFieldInstr_sim {tf : TypeEnv} {ctx ctx' : Ctx} {d d' : Data} {e : Xml} {w : WCtx}
+    (h : genFieldInstr tf ctx d e = .ok (ctx', d')) (ha : AgreeW ctx w) :
+    ∃ w', wfNamed w e false false = some w' ∧ AgreeW ctx' w' ∧ w'.chunked = w.chunked := by
+  unfold genFieldInstr at h
+  extract_lets optional padded jp at h
+  split at h
+  · cases h
+  · rename_i hro
+    simp only [jp] at h
+    obtain ⟨ty, _, h⟩ := except_bind_ok h
+    obtain ⟨text, htext, h⟩ := except_bind_ok h
+    obtain ⟨⟨c1, d1⟩, hall, h⟩ := except_bind_ok h
+    simp only [pure, Except.pure, Except.ok.injEq, Prod.mk.injEq] at h
+    obtain ⟨rfl, rfl⟩ := h
+    refine named_sim (isArray := false) (isLength := false) (e := e) rfl rfl rfl rfl ?_ rfl ?_ ?_ hall ha
+    · exact Bool.eq_false_iff.mpr hro
+    · intro h; cases h
+    · intro hs _
+      cases text with
+      | none => cases hs
+      | some r => exact getText_some_hasText htext
+
+theorem getReq_ok {e : Xml} {n v : String} (h : e.getReq n = .ok v) : e.get n = some v := by
+  unfold Xml.getReq at h
+  split at h
+  · rename_i v' hv; cases h; exact hv
+  · cases h
+
+theorem genArrayInstr_sim {tf : TypeEnv} {ctx ctx' : Ctx} {d d' : Data} {e : Xml} {w : WCtx}
+    (h : genArrayInstr tf ctx d e = .ok (ctx', d')) (ha : AgreeW ctx w) :
+    ∃ w', wfNamed w e true false = some w' ∧ AgreeW ctx' w' ∧ w'.chunked = w.chunked := by
+  unfold genArrayInstr at h
+  extract_lets optional delimited jp2 jp at h
+  split at h
+  · cases h
+  · rename_i hro
+    simp only [jp] at h
+    split at h
+    · cases h
+    · rename_i hdel
+      simp only [jp2] at h
+      obtain ⟨name, hname, h⟩ := except_bind_ok h
+      obtain ⟨ty, _, h⟩ := except_bind_ok h
+      obtain ⟨⟨c1, d1⟩, hall, h⟩ := except_bind_ok h
+      simp only [pure, Except.pure, Except.ok.injEq, Prod.mk.injEq] at h
+      obtain ⟨rfl, rfl⟩ := h
+      have hn := getReq_ok hname
+      refine named_sim (isArray := true) (isLength := false) (e := e) hn.symm rfl rfl rfl ?_ ?_ ?_ ?_ hall ha
+      · exact Bool.eq_false_iff.mpr hro
+      · exact Bool.eq_false_iff.mpr hdel
+      · intro _; rw [hn]; rfl
+      · intro _ h; cases h
+
+theorem genLengthInstr_sim {tf : TypeEnv} {ctx ctx' : Ctx} {d d' : Data} {e : Xml} {w : WCtx}
+    (h : genLengthInstr tf ctx d e = .ok (ctx', d')) (ha : AgreeW ctx w) :
+    ∃ w', wfNamed w e false true = some w' ∧ AgreeW ctx' w' ∧ w'.chunked = w.chunked := by
+  unfold genLengthInstr at h
+  extract_lets optional jp at h
+  split at h
+  · cases h
+  · rename_i hro
+    simp only [jp] at h
+    obtain ⟨name, hname, h⟩ := except_bind_ok h
+    obtain ⟨ty, _, h⟩ := except_bind_ok h
+    obtain ⟨off, _, h⟩ := except_bind_ok h
+    obtain ⟨⟨c1, d1⟩, hall, h⟩ := except_bind_ok h
+    simp only [pure, Except.pure, Except.ok.injEq, Prod.mk.injEq] at h
+    obtain ⟨rfl, rfl⟩ := h
+    have hn := getReq_ok hname
+    refine named_sim (isArray := false) (isLength := true) (e := e) hn.symm rfl rfl rfl ?_ rfl ?_ ?_ hall ha
+    · exact Bool.eq_false_iff.mpr hro
+    · intro _; rw [hn]; rfl
+    · intro _ h; cases h
+
+theorem genDummyInstr_sim {tf : TypeEnv} {ctx ctx' : Ctx} {d d' : Data} {e : Xml}
+    (h : genDummyInstr tf ctx d e = .ok (ctx', d')) :
+    hasText e = true ∧ ∃ b, ctx' = { ctx with reachedDummy := true, needsOldLen := b } := by
+  unfold genDummyInstr at h
+  obtain ⟨ty, _, h⟩ := except_bind_ok h
+  obtain ⟨text, htext, h⟩ := except_bind_ok h
+  extract_lets p ng d0 at h
+  obtain ⟨u, hv, h⟩ := except_bind_ok h
+  obtain ⟨d1, _, h⟩ := except_bind_ok h
+  obtain ⟨d2, _, h⟩ := except_bind_ok h
+  simp only [pure, Except.pure, Except.ok.injEq, Prod.mk.injEq] at h
+  obtain ⟨v1, _, _⟩ := validateField_ok hv
+  have := (v1 rfl).1
+  refine ⟨?_, _, h.1.symm⟩
+  cases text with
+  | none => cases this
+  | some r => exact getText_some_hasText htext
+
+
+/-! ### The simulation -/
+
+theorem wfBody_skip (c : WCtx) : ∀ (cs : List Xml),
+    cs.any (fun x => Xml.instructionTags.contains x.tag) = false → wfBody c cs true = some c
+  | [], _ => by unfold wfBody; rfl
+  | x :: xs, h => by
+    rw [List.any_cons, Bool.or_eq_false_iff] at h
+    unfold wfBody
+    rw [if_pos (by rw [h.1]; rfl)]
+    exact wfBody_skip c xs h.2
+
+theorem caseDataTypeName_ok {cls f n : String} {ce : Xml} (h : caseDataTypeName cls f ce = .ok n)
+    (hd : ce.getBool "default" = false) : (ce.get "value").isSome = true := by
+  unfold caseDataTypeName at h
+  simp only [hd, Bool.false_eq_true, if_false] at h
+  obtain ⟨v, hv, _⟩ := except_bind_ok h
+  rw [getReq_ok hv]; rfl
+
+theorem getBool_eq_battr (e : Xml) (n : String) : e.getBool n = battr e n := rfl
+
+mutual
+
+theorem instr_sim (tf : TypeEnv) : ∀ (x : Xml) (ctx : Ctx) (d : Data) (ctx' : Ctx) (d' : Data) (w : WCtx),
+    AgreeW ctx w → genInstruction tf ctx d x = .ok (ctx', d') →
+    ∃ w', wfInstr w x = some w' ∧ AgreeW ctx' w' ∧ w'.chunked = w.chunked
+  | .mk tag attrs text tail children, ctx, d, ctx', d', w, ha, h => by
+    unfold genInstruction at h
+    unfold wfInstr
+    obtain ⟨a1, a2, a3, a4, a5, a6⟩ := id ha
+    dsimp only at h ⊢
+    by_cases hd : ctx.reachedDummy = true
+    · rw [if_pos hd] at h; cases h
+    rw [if_neg hd] at h
+    rw [if_neg (by rw [← a3]; exact hd)]
+    by_cases h1 : (tag == "field") = true
+    · rw [if_pos h1] at h ⊢; exact genFieldInstr_sim h ha
+    rw [if_neg h1] at h ⊢
+    by_cases h2 : (tag == "array") = true
+    · rw [if_pos h2] at h ⊢; exact genArrayInstr_sim h ha
+    rw [if_neg h2] at h ⊢
+    by_cases h3 : (tag == "length") = true
+    · rw [if_pos h3] at h ⊢; exact genLengthInstr_sim h ha
+    rw [if_neg h3] at h ⊢
+    by_cases h4 : (tag == "dummy") = true
+    · rw [if_pos h4] at h ⊢
+      obtain ⟨ht, b, hc⟩ := genDummyInstr_sim h
+      rw [if_pos ht]
+      subst hc
+      exact ⟨_, rfl, ⟨a1, a2, rfl, a4, a5, a6⟩, rfl⟩
+    rw [if_neg h4] at h ⊢
+    by_cases h5 : (tag == "switch") = true
+    · rw [if_pos h5] at h
+      have ht : tag = "switch" := by simpa using h5
+      subst ht
+      rw [if_neg (by decide), if_neg (by decide), if_pos (by decide)]
+      split at h
+      · cases h
+      rename_i f hf
+      rw [getReq_ok hf]
+      dsimp only
+      split at h
+      · cases h
+      split at h
+      · cases h
+      rename_i d2 ro rd sc dc hcases
+      have hw := cases_sim tf children ctx _ f true ctx.reachedOptional ctx.reachedDummy [] []
+        d2 ro rd sc dc w ha hcases
+      rw [a2, a3] at hw
+      rw [hw]
+      simp only [Except.ok.injEq, Prod.mk.injEq] at h
+      obtain ⟨rfl, _⟩ := h
+      exact ⟨_, rfl, ⟨a1, rfl, rfl, a4, a5, a6⟩, rfl⟩
+    rw [if_neg h5] at h
+    by_cases h6 : (tag == "chunked") = true
+    · rw [if_pos h6] at h
+      have ht : tag = "chunked" := by simpa using h6
+      subst ht
+      rw [if_neg (by decide), if_pos (by decide)]
+      cases hch : ctx.chunked with
+      | false =>
+        simp only [hch, Bool.not_false, if_true] at h
+        split at h
+        · cases h
+        rename_i c2 d2 hb
+        have hag : AgreeW { ctx with chunked := true } { w with chunked := true } :=
+          ⟨rfl, a2, a3, a4, a5, a6⟩
+        obtain ⟨w2, hw2, ⟨b1, b2, b3, b4, b5, b6⟩, hc2⟩ :=
+          body_sim tf children false _ _ c2 d2 _ hag hb
+        rw [hw2]
+        simp only [Except.ok.injEq, Prod.mk.injEq] at h
+        obtain ⟨rfl, _⟩ := h
+        exact ⟨_, rfl, ⟨by rw [← a1, hch], b2, b3, b4, b5, b6⟩, rfl⟩
+      | true =>
+        simp only [hch, Bool.not_true, Bool.false_eq_true, if_false] at h
+        split at h
+        · cases h
+        rename_i c2 d2 hb
+        have hag : AgreeW ctx { w with chunked := true } := ⟨hch, a2, a3, a4, a5, a6⟩
+        obtain ⟨w2, hw2, ⟨b1, b2, b3, b4, b5, b6⟩, hc2⟩ :=
+          body_sim tf children false _ _ c2 d2 _ hag hb
+        rw [hw2]
+        simp only [Except.ok.injEq, Prod.mk.injEq] at h
+        obtain ⟨rfl, _⟩ := h
+        exact ⟨_, rfl, ⟨(b1.trans hc2).trans (hch.symm.trans a1), b2, b3, b4, b5, b6⟩, rfl⟩
+    rw [if_neg h6] at h
+    by_cases h7 : (tag == "break") = true
+    · rw [if_pos h7] at h ⊢
+      by_cases hch : (!ctx.chunked) = true
+      · rw [if_pos hch] at h; cases h
+      · rw [if_neg hch] at h
+        simp only [Except.ok.injEq, Prod.mk.injEq] at h
+        obtain ⟨rfl, _⟩ := h
+        rw [if_pos (by rw [← a1]; simpa using hch)]
+        exact ⟨_, rfl, ⟨a1, rfl, rfl, a4, a5, a6⟩, rfl⟩
+    rw [if_neg h7] at h ⊢
+    rw [if_neg h6, if_neg h5]
+    simp only [Except.ok.injEq, Prod.mk.injEq] at h
+    obtain ⟨rfl, _⟩ := h
+    exact ⟨w, rfl, ha, rfl⟩
+
+theorem body_sim (tf : TypeEnv) : ∀ (cs : List Xml) (only : Bool) (ctx : Ctx) (d : Data) (ctx' : Ctx) (d' : Data)
+    (w : WCtx), AgreeW ctx w → genBody tf ctx d cs only = .ok (ctx', d') →
+    ∃ w', wfBody w cs only = some w' ∧ AgreeW ctx' w' ∧ w'.chunked = w.chunked
+  | [], only, ctx, d, ctx', d', w, ha, h => by
+    unfold genBody at h
+    simp only [Except.ok.injEq, Prod.mk.injEq] at h
+    obtain ⟨rfl, _⟩ := h
+    unfold wfBody
+    exact ⟨w, rfl, ha, rfl⟩
+  | c :: cs, only, ctx, d, ctx', d', w, ha, h => by
+    unfold genBody at h
+    unfold wfBody
+    by_cases hc : (only && !(Xml.instructionTags.contains c.tag)) = true
+    · rw [if_pos hc] at h ⊢
+      exact body_sim tf cs only ctx d ctx' d' w ha h
+    · rw [if_neg hc] at h ⊢
+      split at h
+      · cases h
+      · rename_i c1 d1 hi
+        obtain ⟨w1, hw1, ha1, hch1⟩ := instr_sim tf c ctx d c1 d1 w ha hi
+        rw [hw1]
+        obtain ⟨w2, hw2, ha2, hch2⟩ := body_sim tf cs only c1 d1 ctx' d' w1 ha1 h
+        exact ⟨w2, hw2, ha2, hch2.trans hch1⟩
+
+theorem cases_sim (tf : TypeEnv) : ∀ (cs : List Xml) (ctx : Ctx) (d : Data) (f : String) (start ro rd : Bool)
+    (sc : List SerCase) (dc : List DeCase) (d' : Data) (ro' rd' : Bool) (sc' : List SerCase) (dc' : List DeCase)
+    (w : WCtx), AgreeW ctx w →
+    genCases tf ctx d f cs start ro rd sc dc = .ok (d', ro', rd', sc', dc') →
+    wfCases w f cs start ro rd = some (ro', rd')
+  | [], ctx, d, f, start, ro, rd, sc, dc, d', ro', rd', sc', dc', w, ha, h => by
+    unfold genCases at h
+    simp only [Except.ok.injEq, Prod.mk.injEq] at h
+    obtain ⟨_, rfl, rfl, _⟩ := h
+    unfold wfCases
+    rfl
+  | (.mk ctag cattrs ctext ctail cchildren) :: cs, ctx, d, f, start, ro, rd, sc, dc, d', ro', rd', sc', dc', w,
+      ha, h => by
+    unfold genCases at h
+    unfold wfCases
+    obtain ⟨a1, a2, a3, a4, a5, a6⟩ := id ha
+    dsimp only at h ⊢
+    by_cases hct : (ctag != "case") = true
+    · rw [if_pos hct] at h ⊢
+      exact cases_sim tf cs ctx d f start ro rd sc dc d' ro' rd' sc' dc' w ha h
+    rw [if_neg hct] at h ⊢
+    split at h
+    · cases h
+    rename_i clsName hcn
+    split at h
+    · cases h
+    rename_i cond hcond
+    by_cases hfn : (ctx.field? f).isNone = true
+    · rw [if_pos hfn] at h; cases h
+    rw [if_neg hfn] at h
+    have hfs : w.names.contains f = true := by
+      rw [← a4]
+      cases hh : ctx.field? f with
+      | none => rw [hh] at hfn; exact absurd rfl hfn
+      | some _ => rfl
+    -- the two guards on `default` / `value`
+    have hg1 : ¬ ((battr (Xml.mk ctag cattrs ctext ctail cchildren) "default" && start) = true) := by
+      intro hb
+      rw [Bool.and_eq_true] at hb
+      rw [← getBool_eq_battr] at hb
+      rw [hb.1, hb.2] at hcond
+      cases hcond
+    have hg2 : ¬ ((!battr (Xml.mk ctag cattrs ctext ctail cchildren) "default" &&
+        ((Xml.mk ctag cattrs ctext ctail cchildren).get "value").isNone) = true) := by
+      intro hb
+      rw [Bool.and_eq_true] at hb
+      have hdf : (Xml.mk ctag cattrs ctext ctail cchildren).getBool "default" = false := by
+        rw [getBool_eq_battr]; simpa using hb.1
+      have := caseDataTypeName_ok hcn hdf
+      cases hv : (Xml.mk ctag cattrs ctext ctail cchildren).get "value" with
+      | none => rw [hv] at this; cases this
+      | some v => rw [hv] at hb; exact absurd hb.2 (by simp)
+    rw [if_neg hg1, if_neg hg2, if_neg (by rw [hfs]; decide)]
+    by_cases hem : (!(cchildren.any (fun x => Xml.instructionTags.contains x.tag))) = true
+    · rw [if_pos hem] at h
+      rw [wfBody_skip _ cchildren (by simpa using hem)]
+      dsimp only
+      rw [← a2, ← a3]
+      exact cases_sim tf cs ctx _ f false _ _ _ _ d' ro' rd' sc' dc' w ha h
+    · rw [if_neg hem] at h
+      split at h
+      · cases h
+      rename_i c2 cd hb
+      have hag : AgreeW { ctx with accessible := [], lenRef := [] } { w with names := [], lens := [] } :=
+        ⟨a1, a2, a3, fun _ => rfl, fun _ => rfl, fun _ hn => by cases hn⟩
+      obtain ⟨w2, hw2, ⟨b1, b2, b3, b4, b5, b6⟩, _⟩ :=
+        body_sim tf cchildren true _ _ c2 cd _ hag hb
+      rw [hw2]
+      dsimp only
+      rw [← b2, ← b3]
+      exact cases_sim tf cs ctx _ f false _ _ _ _ d' ro' rd' sc' dc' w ha h
+
+end
+
+
+/-! ### From `compile` down to the class bodies -/
+
+theorem mapM'_ok {α β} {g : α → Except GenErr β} : ∀ {l : List α} {r : List β},
+    mapM' g l = .ok r → ∀ x ∈ l, ∃ y, g x = .ok y
+  | [], _, _, x, hx => by cases hx
+  | a :: as, r, h, x, hx => by
+    unfold mapM' at h
+    split at h
+    · cases h
+    · rename_i b hb
+      cases hr : mapM' g as with
+      | error m => rw [hr] at h; cases h
+      | ok r' =>
+        cases hx with
+        | head => exact ⟨b, hb⟩
+        | tail _ hx' => exact mapM'_ok hr x hx'
+
+theorem genObject_ok {tf : TypeEnv} {name : String} {e : Xml} {cs : List ClassIR}
+    (h : genObject tf name e = .ok cs) :
+    ∃ ctx d, genBody tf {} { className := name } e.children true = .ok (ctx, d) := by
+  unfold genObject at h
+  split at h
+  · cases h
+  · rename_i ctx d hb; exact ⟨ctx, d, hb⟩
+
+theorem genObject_wfClass {tf : TypeEnv} {name : String} {e : Xml} {cs : List ClassIR}
+    (h : genObject tf name e = .ok cs) : wfClass e = true := by
+  obtain ⟨ctx, d, hb⟩ := genObject_ok h
+  have hag : AgreeW {} {} := ⟨rfl, rfl, rfl, fun _ => rfl, fun _ => rfl, fun _ hn => by cases hn⟩
+  obtain ⟨w', hw, _, _⟩ := body_sim tf e.children true _ _ ctx d _ hag hb
+  unfold wfClass
+  rw [hw]; rfl
+
+theorem genStruct_wfClass {tf : TypeEnv} {e : Xml} {r : List ClassIR × GenFile}
+    (h : genStruct tf e = .ok r) : wfClass e = true := by
+  unfold genStruct at h
+  obtain ⟨n, _, h⟩ := except_bind_ok h
+  obtain ⟨t, _, h⟩ := except_bind_ok h
+  split at h
+  · obtain ⟨cs, hcs, _⟩ := except_bind_ok h
+    exact genObject_wfClass hcs
+  · cases h
+
+theorem genPacket_wfClass {tf : TypeEnv} {dir : String} {e : Xml} {r : List ClassIR × GenFile}
+    (h : genPacket tf dir e = .ok r) : wfClass e = true := by
+  unfold genPacket at h
+  extract_lets jp at h
+  obtain ⟨suffix, h⟩ : ∃ s, jp s = .ok r := by
+    repeat' split at h
+    all_goals first | cases h | (obtain ⟨s, _, h⟩ := except_bind_ok h; exact ⟨s, h⟩)
+  simp only [jp] at h
+  obtain ⟨fam, _, h⟩ := except_bind_ok h
+  obtain ⟨act, _, h⟩ := except_bind_ok h
+  obtain ⟨ft, _, h⟩ := except_bind_ok h
+  split at h
+  · obtain ⟨fvals, _, h⟩ := except_bind_ok h
+    obtain ⟨at_, _, h⟩ := except_bind_ok h
+    split at h
+    · obtain ⟨avals, _, h⟩ := except_bind_ok h
+      split at h
+      · obtain ⟨fv, _, h⟩ := except_bind_ok h
+        split at h
+        · obtain ⟨av, _, h⟩ := except_bind_ok h
+          obtain ⟨cs, hcs, _⟩ := except_bind_ok h
+          exact genObject_wfClass hcs
+        · cases h
+      · cases h
+    · cases h
+  · cases h
+
+theorem genFile_wfClass {tf : TypeEnv} {f : ProtoFile} {out : GenOutput} (h : genFile tf f = .ok out)
+    {e : Xml} (he : e ∈ f.root.findall "struct" ∨ e ∈ f.root.findall "packet") : wfClass e = true := by
+  unfold genFile at h
+  obtain ⟨enums, _, h⟩ := except_bind_ok h
+  obtain ⟨structs, hs, h⟩ := except_bind_ok h
+  obtain ⟨packets, hp, h⟩ := except_bind_ok h
+  cases he with
+  | inl he =>
+    obtain ⟨y, hy⟩ := mapM'_ok hs e he
+    exact genStruct_wfClass hy
+  | inr he =>
+    obtain ⟨y, hy⟩ := mapM'_ok hp e he
+    exact genPacket_wfClass hy
+
+theorem compile_wfClass {files : List ProtoFile} {out : GenOutput} (h : compile files = .ok out)
+    {f : ProtoFile} (hf : f ∈ files) {e : Xml}
+    (he : e ∈ f.root.findall "struct" ∨ e ∈ f.root.findall "packet") : wfClass e = true := by
+  unfold compile at h
+  obtain ⟨defs, _, h⟩ := except_bind_ok h
+  extract_lets tf at h
+  obtain ⟨outs, ho, _⟩ := except_bind_ok h
+  obtain ⟨y, hy⟩ := mapM'_ok ho f hf
+  exact genFile_wfClass hy he
 
 end EoVerif.Gen
